@@ -140,7 +140,7 @@ func ruleC03(p *Prog, r *Result) {
 	acc := -1
 	for _, pa := range done {
 		for _, e := range pa.Effects {
-			if e.Callee == "bkl.(*file).toAbsolutePaths" && len(e.Args) == 2 && e.Args[1].Op == "carried" {
+			if e.Callee == "bkl.(*file).toAbsolutePaths" && len(e.Args) >= 2 && e.Args[1].Op == "carried" {
 				acc = e.Args[1].N
 			}
 		}
